@@ -105,6 +105,27 @@ type TCase struct {
 	Pts [][2]float64 `json:"pts"` // probe points as (s,t) in the unit square, mapped bilinearly into Src
 }
 
+// wellShaped reports whether q is a convex quadrilateral with every interior angle clearly away from
+// 0 and 180 degrees (the property quantifies over non-degenerate convex quadrilaterals).
+func wellShaped(q [8]float64) bool {
+	sign := 0.0
+	for i := 0; i < 4; i++ {
+		ax, ay := q[2*((i+1)%4)]-q[2*i], q[2*((i+1)%4)+1]-q[2*i+1]
+		bx, by := q[2*((i+2)%4)]-q[2*((i+1)%4)], q[2*((i+2)%4)+1]-q[2*((i+1)%4)+1]
+		cr := ax*by - ay*bx
+		la, lb := math.Hypot(ax, ay), math.Hypot(bx, by)
+		if la < 0.5 || lb < 0.5 || math.Abs(cr) < 0.2*la*lb {
+			return false
+		}
+		if sign == 0 {
+			sign = cr
+		} else if (cr > 0) != (sign > 0) {
+			return false
+		}
+	}
+	return true
+}
+
 // THist: several transforms built one after the other from related quadrilateral pairs (the same
 // pair with one corner moved, or an unrelated pair) and all kept alive; afterwards each transform
 // must still map its own source corners onto its own destinations.
@@ -124,7 +145,7 @@ func checkTHist(raw json.RawMessage) error {
 	}
 	for i, pr := range h.Pairs {
 		s, d := pr[0], pr[1]
-		if _, ok := solveProjective(s, d); !ok {
+		if _, ok := solveProjective(s, d); !ok || !wellShaped(s) || !wellShaped(d) {
 			continue
 		}
 		scale := 0.0
@@ -562,6 +583,10 @@ func TestCheck(t *testing.T) {
 					d2[2*k+1] += rapid.Float64Range(-6, 6).Draw(t, "dy")
 					oneCorner++
 				default: // the same pair again
+				}
+				if !wellShaped(s2) || !wellShaped(d2) {
+					// moving the corner made the quadrilateral (nearly) degenerate or concave: keep the previous pair
+					s2, d2 = h.Pairs[len(h.Pairs)-1][0], h.Pairs[len(h.Pairs)-1][1]
 				}
 				h.Pairs = append(h.Pairs, [2][8]float64{s2, d2})
 			}
